@@ -57,10 +57,10 @@ CLAIMS = {
         text="Theorems (props/C04.v): in every reachable world the per-user and per-channel membership tables are the same relation, the five rank lists of every channel are exactly the members "
              "whose rank flag is set, and every member is a registered user owned by a live connection; the 353 lines of NAMES carry exactly the members the viewer may see, each once, with its rank "
              "prefix (sound and complete: chunking loses and duplicates nothing), and nothing for a secret channel the viewer is not on; the 319 lines of WHOIS carry exactly the non-secret channels of "
-             "the user's own membership set with the rank prefix; the two views read one relation (C04_views_agree). The effects of JOIN/PART/KICK/NICK/teardown on that relation are the theorems "
-             "of C07, C09, C15, C16 and C06. The WHO text and that announcements reconstruct the roster are decided per run by the oracles on real traces (L2).",
+             "the user's own membership set with the rank prefix; the 352 lines of WHO #channel carry one entry per member with the rank prefix (C04_who_text); the views read one relation (C04_views_agree); PART is announced, one copy each, to every member of the channel as it was before the departure, the leaver included (C04_part_announced). The effects of JOIN/PART/KICK/NICK/teardown on that relation are the theorems "
+             "of C07, C09, C15, C16 and C06. That the JOIN/KICK/NICK announcements together with the NAMES reply reconstruct the roster is decided per run by the oracles on real traces (L2).",
         design_ref="5 (C04)",
-        note="Partial at proof level: the WHO text and the announcement-derived rosters are checked by differential execution, not proved."),
+        note="Partial at proof level: the announcement-derived rosters are checked by differential execution, not proved."),
     "C06": dict(
         technique="Coq proof (full characterisation of VolatileState::remove_user through the channel fold; teardown of a registered / unregistered connection; absent-everywhere corollary of the invariant) + six-way ending sweep with a state-dump oracle on the real server",
         text="Theorems (props/C06.v): the teardown of a registered connection (the single path of QUIT, EOF, reset, bad text, over-long line, pong timeout, KILL, DIE) deletes exactly its user record - "
@@ -112,10 +112,10 @@ CLAIMS = {
              "(C13_grammar_complete); serialising a message with a source and tokenising the result gives back exactly source, command and parameters (C13_serialise_parse, C13_relay_reparses); a verb outside the table is answered 421 "
              "with the upper-cased name, a known verb with fewer parameters than its arity 461, and with enough parameters the line is executed as exactly that verb or answered with a "
              "parameter-specific error - never 421/461 (all 41 verbs, every arity); an unparsable line changes nothing and an empty line is ignored; the framing model (split at LF, strip CR, 2000-byte limit) yields the same "
-             "frames however the byte stream is cut into segments, and an over-long line is reported as such, never executed (C13_segmentation_invariant, C13_overlong_not_executed). CRLF termination "
-             "and the format!-built relays (PART, KICK, 301) are decided per run on the real server (L2); the framing model is the one the extracted program runs against the real LinesCodec.",
+             "frames however the byte stream is cut into segments, and an over-long line is reported as such, never executed (C13_segmentation_invariant, C13_overlong_not_executed). the format!-built relays PART, KICK, PRIVMSG/NOTICE re-parse to verb, target and text for every text (C13_relay_part, C13_relay_kick, C13_relay_msg). CRLF termination "
+             "and the 301 relay are decided per run on the real server (L2); the framing model is the one the extracted program runs against the real LinesCodec.",
         design_ref="5 (C13)",
-        note="Partial at proof level: CRLF emission and the format!-built relays are checked by oracles, not proved; the python grammar oracle is part of the check's trusted base."),
+        note="Partial at proof level: CRLF emission is checked by an oracle, not proved; the python grammar oracle is part of the check's trusted base."),
     "C20": dict(
         technique="Coq proof (the validation model accepts exactly the conjunction the statement lists; shape of a well-formed hash; configured channels and default user modes in the state model) + differential validation of generated configuration files and command lines, and start-up / -g / plain-vs-TLS runs of the real binary",
         text="Theorems (props/C20.v): config_accept holds iff the TLS certificate and key options come together, the effective (command-line overridden) server name contains a dot, every password "
